@@ -33,8 +33,8 @@ def parse(json_filename, encoding="UTF-8"):
     :param json_filename:  JSON filename to process.
     :return: List of feature objects.
     """
-    with codecs.open(json_filename, "rU", encoding=encoding) as input_file:
-        json_data = json.load(input_file, encoding=encoding)
+    with codecs.open(json_filename, "r", encoding=encoding) as input_file:
+        json_data = json.load(input_file)
         json_processor = JsonParser()
         features = json_processor.parse_features(json_data)
         return features
